@@ -47,9 +47,11 @@ type simLogger struct {
 
 // reject is one "ProposalBlock is invalid" verdict of a node's prevote step.
 type reject struct {
-	h   int64
-	r   int32
-	err string
+	h        int64
+	r        int32
+	err      string
+	blk      *types.Block        // the refused block and the validator set of its last commit, read on
+	lastVals *types.ValidatorSet // the consensus goroutine at the moment of the refusal
 }
 
 var debugLog = os.Getenv("CONSIM_DEBUG") != ""
@@ -86,6 +88,10 @@ func (l simLogger) Error(msg string, kv ...interface{}) {
 			case "err":
 				rj.err = fmt.Sprint(all[i+1])
 			}
+		}
+		if cs := l.n.cs; cs != nil {
+			// same goroutine as the state machine (the log call comes from defaultDoPrevote)
+			rj.blk, rj.lastVals = cs.ProposalBlock, cs.LastValidators
 		}
 		l.n.mu.Lock()
 		l.n.rejects = append(l.n.rejects, rj)
